@@ -404,7 +404,7 @@ ROUND10 = {
     "C07": ("a bracketed GROUP of format constraints attached by juxtaposition in place of a single key; keys written with leading zeros in the edge pools (a key is what is written).", {"expressions_with_an_attached_group": 80}),
     "C08": ("fulfilled constraints with a text include objects that were created unfulfilled and corrected by attribute assignment.", {}),
     "C09": ("a part that is returned only because it is the last one must keep the conditional flag of its own condition expression.", {}),
-    "C10": ("the result object of another message (same package keys, other expressions) is built between creating the result and resolving with it, package tables filled in place after construction; dictionary based logic registered for MSCONS with an MSCONS message.", {"results_of_other_messages_built_in_between": 100, "shipped_resolver_mode:hardcoded-mscons": 20}),
+    "C10": ("the result object of another message (same package keys, other expressions) is built between creating the result and resolving with it, package tables filled in place after construction (half of those results start from a JSON body without packages member loaded through the schema); dictionary based logic registered for MSCONS with an MSCONS message.", {"results_of_other_messages_built_in_between": 100, "shipped_resolver_mode:hardcoded-mscons": 20}),
     "C12": ("every evaluation method must have been handed the evaluation context given for ITS key (evaluate_conditions with condition_keys_with_context).", {"contexts_handed_to_evaluation_methods": 200}),
     "C13": ("a quarter of the trees have free-text data elements without discriminator (None).", {"free_texts_without_discriminator": 30}),
     "C15": ("four validations at a time in four THREADS (own event loop and context-local data each, interpreter switch interval 10 us), every result compared with the same validation done alone; format-constraint methods of every third key publish a derived text in the context variable and leave it there.", {"validations_in_concurrent_threads": 200}),
